@@ -1319,9 +1319,13 @@ def run(rep):
     rep.decline('well-formedness of produced XML/HTML bytes, werkzeug Accept negotiation, JSON parseability')
     rep.assume('html.escape(s, True) escapes & < > " \' ; ashes filter semantics as read from the pinned source')
     rep.assume('xml.etree.ElementTree accepts exactly the well-formed documents (used on the constant XML template only)')
-    rep.rule('R09.a', 'class codes vs http.HTTPStatus; hierarchy; uniqueness; status plumbing (def-use order of self.code and of the fields rendered in the constructor)')
-    rep.rule('R09.b', 'MIME_SUPPORT_MAP exhaustiveness; one (format, mimetype) pair feeds body and header')
-    rep.rule('R09.c', 'taint: instance fields reach HTML/XML templates only through html_escape(x, True)')
+    rep.rule('R09.a', 'class codes vs http.HTTPStatus; hierarchy; uniqueness; status plumbing (def-use order of self.code and of the fields rendered in the '
+                      'constructor); handler slots and uncaught_to_response carry the status of their situation; constructors of error types hand on '
+                      'and keep what they are given; class-level defaults are never written')
+    rep.rule('R09.b', 'MIME_SUPPORT_MAP exhaustiveness and constancy; one (format, mimetype) pair feeds body and header (charset = self.charset), also in '
+                      'overrides; negotiation over the table with a plain-text / None default in every render_error')
+    rep.rule('R09.c', 'taint: instance fields reach HTML/XML templates only through html_escape(x, True), in the serialisers each class resolves to; '
+                      'placeholders stay out of unquoted attribute position; the XML template is one well-formed element')
     rep.rule('R09.d', 'every reference of the shipped debug templates is escaped')
     rep.rule('R09.e', 'to_json / to_dict field agreement')
 
